@@ -313,7 +313,7 @@ def decorate(tp: Tape, m: Model, p_atom=150, p_bond=80, none_parity=0,
     for a in list(m.atoms):
         changed = reaction and any(
             "reaction" in m.bonds[frozenset((a, x))] for x in ts[a])
-        if reaction and (changed or tp.chance(40)) and tp.chance(p_change):
+        if reaction and (changed or tp.chance(70)) and tp.chance(p_change):
             roles = [r for r in ROLES if tp.chance(150)] or [tp.pick(ROLES)]
             ch = {}
             for r in roles:
@@ -322,7 +322,7 @@ def decorate(tp: Tape, m: Model, p_atom=150, p_bond=80, none_parity=0,
                 if d is not None:
                     ch[r] = d
             same_nbrs = all(states[r][a] == ts[a] for r in ROLES)
-            if len(ch) >= 2 and same_nbrs and tp.chance(50):
+            if len(ch) >= 2 and same_nbrs and tp.chance(110):
                 # the very same descriptor in several roles
                 first = next(iter(ch.values()))
                 ch = {r: first for r in ch}
@@ -881,3 +881,39 @@ def history(tp: Tape, cls, ids, nsteps, elements=(6, 8, 1, 7)):
         m = O.apply_model(m, op)
         ops.append(op)
     return ops, m
+
+
+HASH_TWINS = [(-1, -2), (8, 8 + 2**61 - 1), (0, 2**61 - 1),
+              (5, 5 - (2**61 - 1))]
+
+
+def collide_ids(tp: Tape, m: Model):
+    """rename two atoms (preferably two look-alike neighbours of one atom) to
+    ids whose Python hashes coincide; everything else keeps its id unless it
+    is in the way"""
+    atoms = list(m.atoms)
+    if len(atoms) < 2:
+        return m
+    pairs = []
+    for c in atoms:
+        nb = sorted(m.neighbours(c), key=atoms.index)
+        for i, x in enumerate(nb):
+            for y in nb[i + 1:]:
+                if m.atoms[x]["atom_type"] == m.atoms[y]["atom_type"]:
+                    pairs.append((x, y))
+    if pairs and tp.chance(220):
+        x, y = tp.pick(pairs)
+    else:
+        x, y = tp.shuffle(atoms)[:2]
+    p, q = tp.pick(HASH_TWINS)
+    if tp.chance(128):
+        p, q = q, p
+    mp = {x: p, y: q}
+    fresh = 3000
+    for a in atoms:
+        if a not in mp and a in (p, q):
+            while fresh in m.atoms:
+                fresh += 1
+            mp[a] = fresh
+            fresh += 1
+    return m.relabel(mp)
